@@ -369,14 +369,13 @@ fn get_column(colsize: usize, left: usize, padding: usize) -> usize {
 
 fn rescale(x: &expr::Amount, context: &DisplayContext) -> PrettyDecimal {
     let mut v = x.value.clone();
-    v.rescale(std::cmp::max(
-        v.scale(),
-        context
-            .precisions
-            .get(x.commodity.as_ref())
-            .cloned()
-            .unwrap_or(0) as u32,
-    ));
+    // Decimal can't have more than 28 fractional digits.
+    let precision = context
+        .precisions
+        .get(x.commodity.as_ref())
+        .cloned()
+        .unwrap_or(0) as u32;
+    v.rescale(std::cmp::max(v.scale(), precision.min(28)));
     v
 }
 
